@@ -1,8 +1,187 @@
-import ErdosVerif.Driver.Util
-namespace ErdosVerif.Driver.MipZ3
-open Lean ErdosVerif.Driver
+/-
+Driver for suite "mip_z3": one case = one Z3Scheduler invocation.
 
-/-- Suite handler: one JSON case in, one JSON reply out (stub until the suite is built). -/
-def handle (_j : Json) : Json := Json.mkObj [("protocol_error", Json.str "suite-not-built")]
+in : {"suite":"mip_z3","inst":{…},"sigma":{"<sorted name>":value,…}|null}
+out: {"err":{"cls":…,"msg":…}}                         -- the exception `schedule()` raises, or
+     {"hard":[…],"soft":[…],"obj":[…],                 -- `gen inst`, one S-expression per assertion
+      "wf":{…},"decode_fail":[…],
+      "sat":bool,"violated":[…],"decode":[…],"objval":int,"soft_penalty":nat,
+      "capacity_ok":bool,"precedence_ok":bool}          -- when sigma is given
+
+Terms are rendered exactly as `harness/planners/z3p.py: render` prints the captured z3 AST:
+constants carry their sort (`I:name`, `B:name`, `V<w>:name`), bit-vector literals are
+`#<w>:<value>`.  sigma is keyed by those rendered constant names.
+-/
+import ErdosVerif.Driver.Util
+import ErdosVerif.Model.Z3m
+namespace ErdosVerif.Driver.MipZ3
+open Lean ErdosVerif.Driver ErdosVerif.Z3m
+
+def parsePairs (j : Json) (k : String) : Except String (List (String × Nat)) := do
+  let l ← fldArr j k
+  mapM' (fun e => do
+    let a ← e.getArr?
+    match a.toList with
+    | [n, q] => return ((← n.getStr?), (← q.getNat?))
+    | _ => throw "bad-pair") l
+
+def parseStrat (j : Json) : Except String Strat := do
+  return { runtime := ← fldNat j "runtime", req := ← parsePairs j "req" }
+
+def parseState (s : String) : TState :=
+  match s with
+  | "VIRTUAL" => .virtual
+  | "RELEASED" => .released
+  | "SCHEDULED" => .scheduled
+  | "RUNNING" => .running
+  | _ => .other
+
+def parseTask (j : Json) : Except String TaskI := do
+  return { uniq := ← fldStr j "uniq", graph := ← fldStr j "graph",
+           state := parseState (← fldStr j "state"),
+           release := ← fldInt j "release", deadline := ← fldInt j "deadline",
+           remaining0 := ← fldNat j "remaining0",
+           strats := ← mapM' parseStrat (← fldArr j "strats") }
+
+def parseEntry (j : Json) : Except String ResEntry := do
+  let a ← j.getArr?
+  match a.toList with
+  | [n, t, q] => return { name := ← n.getStr?, total := ← t.getNat?, avail := ← q.getNat? }
+  | _ => throw "bad-entry"
+
+def parseWorker (j : Json) : Except String WorkerI := do
+  return { name := ← fldStr j "name", pool := ← fldStr j "pool",
+           res := ← mapM' parseEntry (← fldArr j "res") }
+
+def parseNode (j : Json) : Except String Node := do
+  return { uniq := ← fldStr j "uniq", graph := ← fldStr j "graph",
+           deadline := ← fldInt j "deadline", finish := ← fldInt j "finish" }
+
+def parseEdge (j : Json) : Except String (String × String) := do
+  let a ← j.getArr?
+  match a.toList with
+  | [p, c] => return ((← p.getStr?), (← c.getStr?))
+  | _ => throw "bad-edge"
+
+def parseReservation (j : Json) : Except String Reservation := do
+  return { worker := ← fldNat j "worker", res := ← fldStr j "res", qty := ← fldNat j "qty",
+           from_ := ← fldInt j "from", to_ := ← fldInt j "to" }
+
+def parseInst (j : Json) : Except String Inst := do
+  let reserved ← match fldOpt j "reserved" with
+    | none => pure []
+    | some _ => mapM' parseReservation (← fldArr j "reserved")
+  return { now := ← fldInt j "now",
+           workers := ← mapM' parseWorker (← fldArr j "workers"),
+           tasks := ← mapM' parseTask (← fldArr j "tasks"),
+           nodes := ← mapM' parseNode (← fldArr j "nodes"),
+           edges := ← mapM' parseEdge (← fldArr j "edges"),
+           enforceDeadlines := ← fldBool j "enforce_deadlines",
+           reserved := reserved }
+
+/-! ### Rendering -/
+
+def sp (l : List String) : String := " ".intercalate l
+
+def rBv (I : Inst) : BV → String
+  | .var v w => s!"V{w}:{I.varName v}"
+  | .lit b => s!"#{b.length}:{fromBits b}"
+  | .extract hi lo a => s!"(extract {hi} {lo} {rBv I a})"
+  | .xor a b => s!"(bvxor {rBv I a} {rBv I b})"
+
+mutual
+def rInt (I : Inst) : Z → String
+  | .lit n => toString n
+  | .var v => s!"I:{I.varName v}"
+  | .add l => "(" ++ sp ("+" :: rIntL I l) ++ ")"
+  | .sub a b => s!"(- {rInt I a} {rInt I b})"
+  | .ite c a b => s!"(ite B:{I.varName c} {rInt I a} {rInt I b})"
+def rIntL (I : Inst) : List Z → List String
+  | [] => []
+  | a :: l => rInt I a :: rIntL I l
+end
+
+mutual
+def rBool (I : Inst) : B → String
+  | .tt => "true"
+  | .ff => "false"
+  | .var v => s!"B:{I.varName v}"
+  | .not a => s!"(not {rBool I a})"
+  | .and l => "(" ++ sp ("and" :: rBoolL I l) ++ ")"
+  | .or l => "(" ++ sp ("or" :: rBoolL I l) ++ ")"
+  | .imp a b => s!"(=> {rBool I a} {rBool I b})"
+  | .iff a b => s!"(= {rBool I a} {rBool I b})"
+  | .le a b => s!"(<= {rInt I a} {rInt I b})"
+  | .ge a b => s!"(>= {rInt I a} {rInt I b})"
+  | .lt a b => s!"(< {rInt I a} {rInt I b})"
+  | .eqI a b => s!"(= {rInt I a} {rInt I b})"
+  | .eqV a b => s!"(= {rBv I a} {rBv I b})"
+  | .neV a b => s!"(distinct {rBv I a} {rBv I b})"
+def rBoolL (I : Inst) : List B → List String
+  | [] => []
+  | a :: l => rBool I a :: rBoolL I l
+end
+
+/-! ### The solver's model -/
+
+def getI (j : Json) (k : String) : Int :=
+  match j.getObjVal? k >>= Json.getInt? with
+  | .ok n => n
+  | .error _ => 0
+
+def getB (j : Json) (k : String) : Bool :=
+  match j.getObjVal? k >>= Json.getBool? with
+  | .ok b => b
+  | .error _ => false
+
+def getV (j : Json) (k : String) : Bits :=
+  match j.getObjVal? k >>= Json.getNat? with
+  | .ok n => toBits 64 n
+  | .error _ => []
+
+def bvWidth (I : Inst) : Var → Nat
+  | .worker _ => I.nW
+  | .res _ r => I.size r
+  | _ => 0
+
+def sigmaOf (I : Inst) (j : Json) : Assign Var :=
+  { i := fun v => getI j s!"I:{I.varName v}",
+    b := fun v => getB j s!"B:{I.varName v}",
+    v := fun v => getV j s!"V{bvWidth I v}:{I.varName v}" }
+
+def jDecision (I : Inst) (d : Decision) : Json :=
+  match d.placed with
+  | none => Json.mkObj [("task", Json.str (I.tname d.task)), ("placed", Json.bool false)]
+  | some (w, t) => Json.mkObj [("task", Json.str (I.tname d.task)), ("placed", Json.bool true),
+      ("worker", jNat w), ("pool", Json.str (I.worker w).pool), ("time", jInt t)]
+
+def handleE (j : Json) : Except String Json := do
+  let I ← parseInst (← fld j "inst")
+  if let some (cls, msg) := I.crash then
+    return Json.mkObj [("err", Json.mkObj [("cls", Json.str cls), ("msg", Json.str msg)])]
+  let m := gen I
+  let base : List (String × Json) :=
+    [("hard", jList (fun a => Json.str (rBool I a)) m.hard),
+     ("soft", jList (fun (p : Nat × B) => Json.str s!"(soft {p.1} - {rBool I p.2})") m.soft),
+     ("obj", Json.arr #[Json.str s!"(max {rInt I m.maximize})"]),
+     ("wf", Json.mkObj [("names", Json.bool I.wfNames), ("chains", Json.bool I.wfChains),
+                        ("single", Json.bool I.wfSingleEntry), ("avail", Json.bool I.wfAvail),
+                        ("states", Json.bool I.wfStates)]),
+     ("decode_fail", jList (jDecision I) (decodeFail I))]
+  let withSigma : List (String × Json) :=
+    match fldOpt j "sigma" with
+    | none => []
+    | some sj =>
+      let σ := sigmaOf I sj
+      [("sat", Json.bool (decide (sat σ m))),
+       ("violated", jList (fun a => Json.str (rBool I a)) (violated σ m)),
+       ("decode", jList (jDecision I) (decode I σ)),
+       ("objval", jInt (objective σ m)),
+       ("soft_penalty", jNat (softPenalty σ m)),
+       ("capacity_ok", Json.bool (I.capacityOK σ)),
+       ("precedence_ok", Json.bool (I.precedenceOK σ))]
+  return Json.mkObj (base ++ withSigma)
+
+def handle (j : Json) : Json := guardE (handleE j)
 
 end ErdosVerif.Driver.MipZ3
